@@ -281,10 +281,15 @@ pub struct StackSink {
     pub buf: [u8; 8192],
     pub len: usize,
     pub overflow: bool,
+    /// how many bytes the sink accepts (a write that does not fit is refused as a whole)
+    pub limit: usize,
 }
 impl StackSink {
     pub fn new() -> Self {
-        StackSink { buf: [0; 8192], len: 0, overflow: false }
+        StackSink { buf: [0; 8192], len: 0, overflow: false, limit: 8192 }
+    }
+    pub fn bounded(limit: usize) -> Self {
+        StackSink { buf: [0; 8192], len: 0, overflow: false, limit: limit.min(8192) }
     }
     pub fn as_str(&self) -> &str {
         std::str::from_utf8(&self.buf[..self.len]).unwrap_or("<non-utf8>")
@@ -293,7 +298,7 @@ impl StackSink {
 impl std::fmt::Write for StackSink {
     fn write_str(&mut self, s: &str) -> std::fmt::Result {
         let b = s.as_bytes();
-        if self.len + b.len() > self.buf.len() {
+        if self.len + b.len() > self.limit {
             self.overflow = true;
             return Err(std::fmt::Error);
         }
